@@ -723,7 +723,8 @@ from pyvc.bounded import bounded
          props=['C13', 'C19', 'C03', 'C08', 'C14', 'C15', 'C17', 'C20', 'C05'],
          prop_clauses={'C05': ['one_watch_per_served_pair', 'none_for_anything_else']},
          clauses=['one_watch_per_served_pair', 'none_for_anything_else', 'keys_match_served_pairs', 'stopped_before_deletion',
-                  'peering_streams_match', 'paused_iff_mandatory_peering_is_absent'],
+                  'peering_streams_match', 'paused_iff_mandatory_peering_is_absent', 'peering_processor_bound_to_its_own_stream',
+                  'processor_told_its_own_resource'],
          universe='resources {A namespaced, B cluster-scoped | A, C both namespaced} x watched subsets (4) x namespaces: '
                   'cluster-wide {None} | subsets of {ns1,ns2,ns3} (8) x peering {standalone, optional absent, optional present, '
                   'mandatory present, mandatory absent, mandatory appearing before the last call, optional present with a '
@@ -743,7 +744,11 @@ def O2(b):
     docs/peering.rst "If the peering object does not exist, the operator will pause at the start" (mandatory mode;
     in the optional mode it "will not pause if it is absent"): the `peering CRD is missing` toggle is ON -- and
     hence the operator paused, so that nothing is listed or watched (W2) -- exactly when the peering is mandatory and
-    no peering resource is known, and it is OFF again once the resource appears.  Precondition from the call sites: cluster-wide mode (None in namespaces)
+    no peering resource is known, and it is OFF again once the resource appears; the processor handed to each peering
+    stream, CALLED after adjust_tasks has returned (as the stream's workers do), processes the event with the namespace,
+    the resource and the conflict toggle of its own stream (C13: a peer seen in one namespace pauses/resumes through that
+    namespace's toggle only), the operator's settings and identity; the processor of each RESOURCE stream is the operator's
+    processor told that stream's own resource (the handlers of kind A never see the objects of kind B).  Precondition from the call sites: cluster-wide mode (None in namespaces)
     is fixed for the operator's life.  Unconstrained corners (DESIGN C19): cluster-scoped resources while
     namespaces == {} (the code keeps an existing watcher but would not start one); a resource that is both watched
     and the peering resource (excluded from the universe).
@@ -772,8 +777,16 @@ def O2(b):
         finally:
             active[kind][key] -= 1
 
+    procs = {}          # (kind, resource, namespace) -> the processor handed to that stream's watcher
+    ppe_calls = []
+
     def fake_watcher(*, namespace, resource, settings, processor, operator_paused=None, **kw):
-        return idle('watch' if operator_paused is not None else 'peering', (resource, namespace))
+        kind = 'watch' if operator_paused is not None else 'peering'
+        procs[(kind, resource, namespace)] = processor
+        return idle(kind, (resource, namespace))
+
+    async def fake_process_peering_event(**kw):
+        ppe_calls.append(kw)
 
     def fake_keepalive(*, namespace, resource, identity, settings):
         return idle('ping', (resource, namespace))
@@ -791,7 +804,10 @@ def O2(b):
     def expected(resources, namespaces):
         return {(r, ns if r.namespaced else None) for r in resources for ns in namespaces}
 
+    proc_calls = []
+
     async def processor(**kw):
+        proc_calls.append(kw)
         return None
 
     async def one_case(pool, peering_mode, steps):
@@ -860,6 +876,36 @@ def O2(b):
                     and all(active['peering'][k] == 1 and active['ping'][k] == 1 for k in pwant)
                     and all(ks == pwant for ks in pkeys)
                     and set(ensemble.conflicts_found.values()) | {ensemble.peering_missing} == set(operator_paused), w)
+            # the processor each peering stream got, when it is CALLED (later, by the stream's workers), handles the events
+            # with the namespace, resource and conflict toggle of ITS OWN stream, the operator's settings and identity
+            ok = True
+            for (r, ns) in sorted(pwant, key=lambda k: (k[0].plural, str(k[1]))):
+                proc = procs.get(('peering', r, ns))
+                del ppe_calls[:]
+                if proc is None:
+                    ok = False
+                    continue
+                await proc(raw_event={'type': None, 'object': {}}, stream_pressure=None, resource_indexed=None,
+                           operator_indexed=None, consistency_time=None)
+                dkey = orchestration.EnsembleKey(resource=r, namespace=ns)
+                ok = ok and len(ppe_calls) == 1 and ppe_calls[0].get('namespace') == ns and ppe_calls[0].get('resource') == r \
+                    and ppe_calls[0].get('conflicts_found') is ensemble.conflicts_found.get(dkey) \
+                    and ppe_calls[0].get('settings') is settings and ppe_calls[0].get('identity') == 'me' \
+                    and ppe_calls[0].get('raw_event') == {'type': None, 'object': {}}
+            b.check('peering_processor_bound_to_its_own_stream', ok, w)
+            # ... and so does the processor of every resource stream: the operator's processor, told ITS OWN resource
+            ok = True
+            for (r, ns) in sorted(want, key=lambda k: (k[0].plural, str(k[1]))):
+                proc = procs.get(('watch', r, ns))
+                del proc_calls[:]
+                if proc is None:
+                    ok = False
+                    continue
+                await proc(raw_event={'type': None, 'object': {}}, stream_pressure=None, resource_indexed=None,
+                           operator_indexed=None, consistency_time=None)
+                ok = ok and len(proc_calls) == 1 and proc_calls[0].get('resource') == r \
+                    and proc_calls[0].get('raw_event') == {'type': None, 'object': {}}
+            b.check('processor_told_its_own_resource', ok, w)
         finally:
             tasks = ensemble.get_tasks(ensemble.get_keys())
             for t in tasks:
@@ -899,7 +945,8 @@ def O2(b):
     with warnings.catch_warnings():
         warnings.simplefilter('ignore', RuntimeWarning)
         with mock.patch.object(orchestration.queueing, 'watcher', fake_watcher), \
-                mock.patch.object(orchestration.peering, 'keepalive', fake_keepalive):
+                mock.patch.object(orchestration.peering, 'keepalive', fake_keepalive), \
+                mock.patch.object(orchestration.peering, 'process_peering_event', fake_process_peering_event):
             asyncio.run(main())
 
 
